@@ -74,6 +74,9 @@ def _case(draw):
     # the type the leaf syntenies are handed over in: the package accepts any sequence of family names (lists through
     # JSON, tuples, and - for one-letter families, as in its own tests - plain strings), sets for the unordered solvers
     case["_syn_type"] = draw(st.sampled_from(["list", "list", "tuple", "str", "set"]))
+    # ancestors of both trees without names, handed to the labelled solvers through the Python API (they name the nodes
+    # themselves); the solutions are then validated against the trees they refer to
+    case["_unnamed"] = gen.chance(draw, 1, 4)
     return case
 
 
@@ -88,9 +91,13 @@ def check(case):
     if labelled and case.get("_syn_type") == "str":
         # one-letter family names (g0 -> a, g1 -> b, ...) so that a synteny can be a plain string
         case = dict(case, leaf_syntenies={k: ["abcdefghij"[int(f[1:])] for f in v] for k, v in case["leaf_syntenies"].items()})
+    unnamed = bool(case.get("_unnamed")) and labelled and all(k in case["leaf_object_species"] for k in case["leaf_syntenies"])
+    if unnamed:
+        case = dict(pkg.strip_ancestor_names(case))
     orig_o = parse_newick(case["object_tree"])
     orig_s = parse_newick(case["species_tree"])
     polytomous = not (orig_o.is_binary() and orig_s.is_binary())
+    via_output = polytomous or unnamed
     labels = [f"group={group}"]
     if case.get("_chain"):
         labels.append("deep_chain")
@@ -102,10 +109,12 @@ def check(case):
     if labelled and c["SEGMENTAL_LOSS"] == 0:
         labels.append("sloss=0")
     inst0 = None
-    if not polytomous:
+    if unnamed:
+        labels.append("unnamed_ancestors")
+    if not via_output:
         inst0 = Instance(case)
         labels += [l for l in common_labels(inst0, labelled) if l.startswith(("obj=", "sp=", "fam=", "hgt", "empty"))]
-    inp = pkg.make_input(case, labelled=labelled)
+    inp = pkg.make_input(case, labelled=labelled, label=not unnamed)
     syn_type = case.get("_syn_type", "list") if labelled else "list"
     if syn_type == "set" and not group.endswith("unordered"):
         syn_type = "tuple"
@@ -141,7 +150,7 @@ def check(case):
                     labels.append("capped")
             for out in outs:
                 n_solutions += 1
-                if polytomous:
+                if via_output:
                     ocase, ot, stt = case_of_output(out, case["costs"])
                     check_refinement(orig_o, ot, f"{algo}.{policy}.object")
                     check_refinement(orig_s, stt, f"{algo}.{policy}.species")
